@@ -26,7 +26,7 @@ BUILTIN_NAMES = {
     "list", "tuple", "isinstance", "ord", "chr", "divmod", "bool", "any", "all", "sorted", "iter", "next",
     "ceil", "floor", "sqrt", "hash", "getattr", "cast", "dict", "set", "print", "repr", "hasattr", "callable", "super",
 }
-SPEC_BUILTINS = {"old", "acq", "line_cells", "joined", "joinlen", "joincells", "implies", "cells", "width_of", "lsum", "fresh_result", "is_ref", "seq_eq", "iff", "ite", "prefix_pad", "char_at", "count_true"}
+SPEC_BUILTINS = {"old", "acq", "line_cells", "joined", "joinlen", "joincells", "implies", "cells", "width_of", "lsum", "fresh_result", "is_ref", "seq_eq", "iff", "ite", "prefix_pad", "char_at", "count_true", "tail_alias"}
 
 
 class CallMixin:
@@ -123,6 +123,53 @@ class CallMixin:
         if isinstance(v, list):
             return VFunc("pylist", data=v)
         raise Unsupported(f"constant of type {type(v).__name__}")
+
+    # ------------------------------------------------------------------ tail aliases (`append = lines[-1].append`)
+    # The alias lives in a heap cell ("tailalias", container ref, the container's VSeq value when the alias was valid).
+    # Every list mutation replaces the container's VSeq object, so the alias is *fresh* iff the container's current
+    # value is that very object; a call through a stale alias is outside the modelled subset (Unsupported), never
+    # mis-modelled.  The inner lists are values here: sound because the inner list is reachable only through the
+    # container and this alias (it is created by the subscript expression itself).
+    def tail_alias_new(self, cont, st):
+        from .state import new_ref
+        cur = st.heap[cont.ref]
+        n = cur.length()
+        for e, s2 in self.guard(st, n >= 1, "IndexError", "list index -1 of a non-empty list"):
+            if e is not None:
+                yield e, s2
+                continue
+            ar = new_ref()
+            s2.heap[ar] = ("tailalias", cont.ref, s2.heap[cont.ref])
+            yield VFunc("tailappend", "append", obj=VRef(ar)), s2
+
+    def tail_alias_call(self, f, args, st):
+        cell = st.heap.get(f.obj.ref)
+        if not (isinstance(cell, tuple) and cell[0] == "tailalias"):
+            raise Unsupported("call through a tail alias that the loop invariant does not re-establish (tail_alias(f, xs))")
+        _, cref, stamp = cell
+        cur = st.heap[cref]
+        if cur is not stamp:
+            raise Unsupported("call through a stale tail alias (the container changed since `xs[-1].append` was taken)")
+        if len(args) != 1:
+            raise Unsupported("tail alias arity")
+        n = cur.length()
+        ez = self.U.z3sort(cur.elem)
+        last = self.from_term(seqs.seq_elem(cur, z3.simplify(n - 1)), cur.elem, st)
+        inner_elem = cur.elem.args[0]
+        x = self.to_term(args[0], inner_elem, st) if inner_elem.kind != "str" else None
+        if inner_elem.kind == "str":
+            piece = Piece("lit", items=[self.to_term(args[0], inner_elem, st)])
+        else:
+            piece = Piece("lit", items=[x])
+        new_last = VSeq(last.elem if last.elem.kind != "any" else inner_elem, list(last.pieces) + [piece])
+        facts: list = []
+        head = seqs.slice_(cur, z3.IntVal(0), z3.simplify(n - 1), facts, ez)
+        for fct in facts:
+            st.assume(fct)
+        new = VSeq(cur.elem, list(head.pieces) + [Piece("lit", items=[self.to_term(new_last, cur.elem, st)])])
+        st.heap[cref] = new
+        st.heap[f.obj.ref] = ("tailalias", cref, new)
+        yield V(NONE, None), st
 
     # ------------------------------------------------------------------ attributes
     def class_of_record(self, name: str):
@@ -335,6 +382,8 @@ class CallMixin:
             yield from self.call_builtin(f.name, args, kwargs, st, node)
         elif k == "bound":
             yield from self.call_method(f.obj, f.name, args, kwargs, st)
+        elif k == "tailappend":
+            yield from self.tail_alias_call(f, args, st)
         elif k == "func":
             mod = source.load(f.data)
             if f.obj is not None:
